@@ -483,7 +483,19 @@ func c16PathsRerooted(c *Ctx) {
 			}
 			return true
 		})
-		if len(joiners) == 0 {
+		// a join written in place (anonymous closure or loop) counts like the named closure
+		isDirectJoin := func(m ast.Node) bool {
+			call, ok := m.(*ast.CallExpr)
+			return ok && calleeIs(Callee(info, call), "private/pkg/normalpath", "Join") && len(call.Args) >= 1 && identObj(info, call.Args[0]) == dirParam
+		}
+		anyJoin := len(joiners) > 0
+		ast.Inspect(fr.Decl.Body, func(m ast.Node) bool {
+			if isDirectJoin(m) {
+				anyJoin = true
+			}
+			return true
+		})
+		if !anyJoin {
 			continue
 		}
 		isPathsCall := func(e ast.Expr) bool {
@@ -517,6 +529,9 @@ func c16PathsRerooted(c *Ctx) {
 						}
 					}
 				case *ast.CallExpr:
+					if isDirectJoin(x) {
+						joined = true
+					}
 					if isPathsCall(x) {
 						if _, isMap := info.TypeOf(x).Underlying().(*types.Map); !isMap {
 							src = true
